@@ -106,7 +106,11 @@ static void check_unreadable(int kind, int op, std::vector<V>& out) {
         CDNS::CdnsDecoder d(f); bool indef;
         switch (op) { case 0: d.peek_type(); break; case 1: d.read_unsigned(); break; case 2: d.read_integer(); break; case 3: d.read_bool(); break; case 4: d.read_bytestring(); break; case 5: d.read_array_start(indef); break; case 6: d.skip_item(); break; }
         out.push_back({std::string("unreadable-stream|op") + std::to_string(op) + "|" + kn[kind], std::string("decoder returned a value from a stream that cannot be read (") + kn[kind] + ")"});
-    } catch (std::exception&) {}
+    } catch (CDNS::CdnsDecoderEnd&) {
+    } catch (std::exception& e) {
+        // "reports end-of-input": a caller that treats CdnsDecoderEnd as the regular end of its input loop must see exactly that, also for a stream that never delivered a byte
+        out.push_back({std::string("unreadable-stream|wrong-error-kind|") + kn[kind], std::string("a stream that cannot be read (") + kn[kind] + ") is reported as '" + e.what() + "' instead of end-of-input (operation " + std::to_string(op) + ")"});
+    }
 }
 
 // =========================================================================================== rewrite (C08)
@@ -531,6 +535,13 @@ int main(int argc, char** argv) {
                     for (int mj = 0; mj < 8; mj++) if (mj != saved.major) { std::string m = b; m[off] = (char)((mj << 5) | (b[off] & 31)); run_one("major-" + seeds[t.seed].first + "-n" + std::to_string(i) + "-to" + std::to_string(mj), m, R); }
                     { std::string m = b; m[off] = (char)((b[off] & 0xe0) | 31); run_one("ai31-" + seeds[t.seed].first + "-n" + std::to_string(i), m, R); }
                     for (int ai : {28, 29, 30}) { std::string m = b; m[off] = (char)((b[off] & 0xe0) | ai); run_one("aireserved-" + seeds[t.seed].first + "-n" + std::to_string(i), m, R); }
+                    // well-formed but degenerate: the container / string emptied (content removed, not just the head patched), and reduced to its first element
+                    if (saved.major >= 2 && saved.major <= 5 && (!saved.kids.empty() || !saved.bytes.empty())) {
+                        for (int keep = 0; keep < 2; keep++) { if (keep && (saved.major < 4 || saved.kids.size() <= (saved.major == 5 ? 2u : 1u))) continue;
+                            Node copy = root; Node* mp = nullptr; { size_t c = 0; visit(copy, [&](Node& y) { if (c++ == i) mp = &y; }); } Node& m = *mp;   // edit a copy: `nodes` points into `root`
+                            m.kids.clear(); m.bytes.clear(); m.indef = false; if (keep) { m.kids.push_back(saved.kids[0]); if (saved.major == 5) m.kids.push_back(saved.kids[1]); }
+                            m.arg = saved.major == 5 ? m.kids.size() / 2 : m.kids.size(); m.ai = min_ai(m.arg);
+                            run_one(std::string(keep ? "first-only-" : "emptied-") + seeds[t.seed].first + "-n" + std::to_string(i) + "-m" + std::to_string(saved.major), encode(copy), R); } }
                 }
                 break; }
             case 3: {
